@@ -34,6 +34,7 @@ Inductive err :=
 | DoesNotExist | AlreadyExists | HangsInCreation | IsMarkedForDestruction | ExceedsMaxNumberOfNodes
 | ServiceInCorruptedState | SystemInFlux | InternalFailure
 | IncompatibleAttributes
+| UnableToAcquireTypeDefinition
 | IncompatibleTypes          (* ps: IncompatibleTypes, rr: IncompatibleRequestOrResponseType, bb: IncompatibleKeys *)
 | SubscriberBufferMustBeLargerThanHistorySize | NoEntriesProvided
 (* publish_subscribe.rs verify_service_configuration, in source order *)
@@ -130,7 +131,10 @@ Record req := mkReq {
   r_define : list (N * N);            (* AttributeSpecifier *)
   r_require : list (N * N);           (* AttributeVerifier: required key = value *)
   r_keys : list N;                    (* AttributeVerifier: required keys *)
-  r_noentries : bool                  (* blackboard creator without add() *)
+  r_noentries : bool;                 (* blackboard creator without add() *)
+  r_resfail : option err              (* creation of the service's additional resources fails with this error: blackboard
+                                         creator that adds a key twice (ServiceInCorruptedState), Flatbuffer payload whose
+                                         schema cannot be found (UnableToAcquireTypeDefinition) *)
 }.
 
 (* what the static config file of a service stores *)
@@ -273,6 +277,7 @@ Inductive pc :=
 | CDyOpen (own : bool) (i : nat) | CDyTrunc (own : bool) (i : nat) | CDyFstat (own : bool) (i : nat)
 | CDyInit (own : bool) (i : nat) | CDyChmod (own : bool) (i : nat)
 | CPanicRmStatic (own : bool) (i : nat)
+| CFailRmStatic (own : bool) (i : nat) (e : err)   (* a creation step after the static config failed: `?` drops the owned static config *)
 (* failure clean-up *)
 | PRmTag (c : cont)
 (* drop *)
@@ -298,13 +303,17 @@ Record lst := mkL {
 Inductive call := CAccess | COpenRd | COpenExcl | CFstat | CRead | CWrite | CChmod | CStat
                 | CShmOpen | CShmCreate | CFtruncate | CRemove | CShmUnlink.
 Inductive obj := BStatic | BDyn (i : nat) | BTag | BNodeDir | BSvcDir | BRes (i : nat).
-Inductive cres := XOk | XEnoent | XEexist | XInit (* fstat: mode still the initial one *) | XFinal | XZero (* fstat: size 0 *).
+Inductive cres := XOk | XEnoent | XEexist | XInit (* fstat: mode still the initial one *) | XFinal | XZero (* fstat: size 0 *)
+              | XFail (* injected failure of the call *).
 Inductive ev := ECall (c : call) (o : obj) (r : cres) | ERet (r : result) | ESleep.
 
 (* p_recheck: acquire() re-checks the LOCK indicator when it increments the generation counter after populating its
    cell (robust_unique_index_set.rs: `if self.increment_generation_counter(..) == GENERATION_COUNTER_LOCK_INDICATOR`).
    The code does (true); the theorems that need it say so, and are refuted for false. *)
-Record params := mkP { p_T : nat; p_defs : pattern -> list N; p_recheck : bool }.
+(* p_own_static: create() keeps the ownership of the static config until the creation is complete (builder/mod.rs:
+   `unlocked_static_details.release_ownership()` comes after the last fallible step), so that every error exit removes it.
+   p_dynfault: environment fault, the shm_open of the dynamic config fails (libgate fault injection). *)
+Record params := mkP { p_T : nat; p_defs : pattern -> list N; p_recheck : bool; p_own_static : bool; p_dynfault : bool }.
 
 Definition get_inst (g : gst) (i : nat) : option inst := nth_error (insts g) i.
 Definition set_inst (g : gst) (i : nat) (x : inst) : gst := mkG (upd (insts g) i x) (cur g) (tags g) (glog g) (gmulti g).
@@ -356,7 +365,7 @@ Definition call_fails (P : params) (t : nat) (g : gst) (l : lst) (k : opkind) (e
     match k, e with
     | KOpen, DoesNotExist =>
       (* try_create_service: flux_counter += 1; create_call (create_impl checks its configuration first) *)
-      let rq := match cur_req l with Some r => r | None => mkReq PubSub true [] [] [] [] [] false end in
+      let rq := match cur_req l with Some r => r | None => mkReq PubSub true [] [] [] [] [] false None end in
       match create_precheck (mk_cfg (p_defs P (r_pat rq)) rq KOoc) rq with
       | Some e' => op_done t g l (RErr SCreate e') (handles l) (nreg l) es
       | None =>
@@ -408,7 +417,7 @@ Definition avail_none (P : params) (t : nat) (g : gst) (l : lst) (es : list ev) 
   end.
 
 Definition the_req (l : lst) : req :=
-  match cur_req l with Some r => r | None => mkReq PubSub true [] [] [] [] [] false end.
+  match cur_req l with Some r => r | None => mkReq PubSub true [] [] [] [] [] false None end.
 Definition public_kind (l : lst) : opkind := match in_ooc l with Some _ => KOoc | None => cur_kind l end.
 
 Definition start_call (P : params) (t : nat) (g : gst) (l : lst) (r : req) (k : opkind) (o : option oocst)
@@ -569,10 +578,15 @@ Definition step (P : params) (t : nat) (g : gst) (l : lst) : option (gst * lst *
   | CStChmod2 own i =>                          (* unlock: FINAL_PERMISSIONS *)
     with_inst g i (fun x =>
       Some (set_inst g i (upd_st x SFinal),
-            set_pc l (if has_res (r_pat rq) then CRes own i else CDyOpen own i), [ECall CChmod BStatic XFinal]))
-  | CRes own i =>
-    with_inst g i (fun x => Some (set_inst g i (upd_res x true), set_pc l (CDyOpen own i), [ECall CShmCreate (BRes i) XOk]))
+            set_pc l (if has_res (r_pat rq) || (match r_resfail rq with Some _ => true | None => false end) then CRes own i else CDyOpen own i),
+            [ECall CChmod BStatic XFinal]))
+  | CRes own i =>                               (* create_service_resource(&service_config)? *)
+    match r_resfail rq with
+    | Some e => Some (g, set_pc l (CFailRmStatic own i e), [])
+    | None => with_inst g i (fun x => Some (set_inst g i (upd_res x true), set_pc l (CDyOpen own i), [ECall CShmCreate (BRes i) XOk]))
+    end
   | CDyOpen own i =>                            (* create_impl: shm_open(O_CREAT|O_EXCL, INIT_PERMISSIONS) *)
+    if p_dynfault P then Some (g, set_pc l (CFailRmStatic own i InternalFailure), [ECall CShmCreate (BDyn i) XFail]) else
     with_inst g i (fun x => Some (set_inst g i (upd_dy x (match i_dy x with DAbsent => DCreated | d => d end) true), set_pc l (CDyTrunc own i), [ECall CShmCreate (BDyn i) XOk]))
   | CDyTrunc own i =>
     with_inst g i (fun x => Some (set_inst g i (upd_dy x (match i_dy x with DCreated => DSized | d => d end) true), set_pc l (CDyFstat own i), [ECall CFtruncate (BDyn i) XOk]))
@@ -590,6 +604,10 @@ Definition step (P : params) (t : nat) (g : gst) (l : lst) : option (gst * lst *
       else call_succeeds KCreate t (set_inst g i (upd_dy x DFinal true)) l i (i_cfg x) 1 [ECall CChmod (BDyn i) XFinal])
   | CPanicRmStatic own i =>                     (* unwinding: the owned static config is removed, the dynamic one is not owned *)
     fail_with_tag P t (set_cur g None) l own KRetPanic [ECall CRemove BStatic XOk]
+  | CFailRmStatic own i e =>                    (* error exit of create after create_locked *)
+    if p_own_static P
+    then fail_with_tag P t (set_cur g None) l own (KRet KCreate e) [ECall CRemove BStatic XOk]
+    else fail_with_tag P t g l own (KRet KCreate e) []
   (* ---- clean-up ---- *)
   | PRmTag c => run_cont P t (rm_tag g t) l c [ECall CRemove BTag XOk]
   (* ---- drop ---- *)
@@ -654,7 +672,11 @@ Definition sp_create (defs : list N) (s : spst) (n : nat) (r : req) (k : opkind)
   | None =>
     match sp_svc s with
     | Some _ => (s, RErr SCreate AlreadyExists)
-    | None => if init_panics c then (s, RPanic) else (mkSp (Some (c, [n])), ROk 0 c)
+    | None =>
+      match r_resfail r with
+      | Some e => (s, RErr SCreate e)               (* a failing creation leaves nothing behind *)
+      | None => if init_panics c then (s, RPanic) else (mkSp (Some (c, [n])), ROk 0 c)
+      end
     end
   end.
 
